@@ -250,12 +250,12 @@ ADDENDA = {
         '_bidding_phase (while-loop, every queue length), _playing_phase (13 x 4 loop), _connect — performs exactly the operations of the reactive model '
         '(seatDealR, seatBiddingR, seatPlayingR) which C09.seat_thread_follows_its_queue identifies with the session program; hypotheses: the '
         'client\'s "ready" messages pass the server\'s own check (stated with the same regular-expression engine the translated code calls).',
- 'C08': THREADS_COMMON + 'Translated/ThreadsMainA.lean, ThreadsMainB.lean and ThreadsMainC.lean (the whole MainThread.run: main_run_translated = bind, listen, one accept round per served connection, then mainReactive; the dict handed to the log writer is the record recordFrom): the translated Server.deal, bidding_phase '
+ 'C08': THREADS_COMMON + 'Translated/ThreadsMainA.lean, ThreadsMainB.lean and ThreadsMainC.lean (the whole MainThread.run: main_run_translated = bind, listen, one accept round per served connection, then mainReactive; the dict handed to the log writer is the record recordFrom) and ThreadsMainD.lean (the CAPSTONE translated_main_thread_is_session_program: the translated main thread performs — apart from one sleep per trick — exactly the operations of sessionProg sc .main, and translated_main_thread_writes_the_session_log: its emit operations are open, one write of encRecord (recordOf ...) per configured board in order, close; for protocol texts the parse hypotheses are discharged by kernel evaluation of the translated parsers on all call and card texts: session_boards_parse): the translated Server.deal, bidding_phase '
         '(own BiddingPhase through the Translated/Auction theorems; an illegal call raises after the two notices) and playing_phase (own '
         'PlayingPhaseWithHands through the Translated/Play theorems; the time.sleep of every trick recorded) perform exactly the operations of the '
         'reactive model (mainDealR, mainBiddingR, mainPlayingR) which C08.main_thread_follows_the_messages identifies with the session program and '
         'the logged record; hypotheses: what the translated parse_bid / parse_card return on the texts received is what the model\'s parsers return.',
- 'C11': THREADS_COMMON + 'Translated/ThreadsClientA.lean and ThreadsClientB.lean (playing_phase with the client\'s own ObservedPlayingPhase replica = clientPlayingR) and ThreadsClientC.lean (the whole ClientThread.run = connection prefix + clientReactive): the translated bundled Client — _connect, _deal, bidding_phase with its own '
+ 'C11': THREADS_COMMON + 'Translated/ThreadsClientA.lean and ThreadsClientB.lean (playing_phase with the client\'s own ObservedPlayingPhase replica = clientPlayingR) and ThreadsClientC.lean (the whole ClientThread.run = connection prefix + clientReactive) and ThreadsClientD.lean (the CAPSTONE translated_client_is_session_program: the translated bundled client performs — apart from asking its systems — exactly the operations of sessionProg sc (.client p), consumes every stream, never raises, never blocks): the translated bundled Client — _connect, _deal, bidding_phase with its own '
         'BiddingPhase replica — performs exactly the operations of the reactive client model (clientDealR, clientBiddingR), returns the contract the '
         'replica holds, raises when the replica refuses a relayed call; create_bid_message proved for all 38 calls x 4 seats by kernel evaluation.',
  'C20': THREADS_COMMON + 'Translated/ThreadsSeatB.lean: the translated PlayerThread._connect on EVERY seat table and request — the three tests in the code\'s order are '
